@@ -61,12 +61,15 @@ type SetClause struct {
 	Ghost string
 	E     Expr
 	Src   string
+	Tags  []string
 }
 
 // CutSpec: lemmas proved (then assumed) just before a statement identified by its source text
 type CutSpec struct {
 	Text   string
+	Nth    int // 1-based occurrence among the statements the text matches; 0: the match must be unique
 	Lemmas []*Clause
+	Sets   []*SetClause // ghost assignments performed just before the statement (after the lemmas)
 	Line   int
 }
 
@@ -241,6 +244,7 @@ func (s *Specs) LoadFile(path string, commentPrefix string) error {
 			s.Axioms = append(s.Axioms, &Axiom{strings.TrimSpace(rest[:c]), splitTags(it.tags), e, rest})
 			cur = nil
 		case "func", "assumed":
+			curCut = nil
 			assumed := it.kw == "assumed"
 			if assumed {
 				if !strings.HasPrefix(rest, "func ") {
@@ -286,7 +290,21 @@ func (s *Specs) LoadFile(path string, commentPrefix string) error {
 			if cur == nil {
 				return perr(it, "before outside func")
 			}
-			curCut = &CutSpec{Text: strings.Trim(strings.TrimSpace(rest), `"`), Line: it.line}
+			nth := 0
+			rest = strings.TrimSpace(rest)
+			if strings.HasPrefix(rest, "#") {
+				sp := strings.IndexAny(rest, " \t")
+				if sp < 0 {
+					return perr(it, "before#N \"statement text\"")
+				}
+				n, err := strconv.Atoi(rest[1:sp])
+				if err != nil || n < 1 {
+					return perr(it, "before#N: N must be a positive integer")
+				}
+				nth = n
+				rest = rest[sp:]
+			}
+			curCut = &CutSpec{Text: strings.Trim(strings.TrimSpace(rest), `"`), Nth: nth, Line: it.line}
 			cur.Cuts = append(cur.Cuts, curCut)
 			curLoop, curAt = nil, nil
 		case "lemma":
@@ -315,7 +333,11 @@ func (s *Specs) LoadFile(path string, commentPrefix string) error {
 			if err != nil {
 				return perr(it, "%v", err)
 			}
-			cur.Sets = append(cur.Sets, &SetClause{strings.TrimSpace(rest[:eq]), ex, rest})
+			if curCut != nil {
+				curCut.Sets = append(curCut.Sets, &SetClause{strings.TrimSpace(rest[:eq]), ex, rest, splitTags(it.tags)})
+			} else {
+				cur.Sets = append(cur.Sets, &SetClause{strings.TrimSpace(rest[:eq]), ex, rest, splitTags(it.tags)})
+			}
 		case "loop":
 			if cur == nil {
 				return perr(it, "loop outside func")
@@ -335,7 +357,7 @@ func (s *Specs) LoadFile(path string, commentPrefix string) error {
 				curLoop = &LoopSpec{Ordinal: n, Header: hdr}
 				cur.Loops[n] = curLoop
 			}
-			curAt = nil
+			curAt, curCut = nil, nil
 		case "at-call":
 			if cur == nil {
 				return perr(it, "at-call outside func")
@@ -366,7 +388,7 @@ func (s *Specs) LoadFile(path string, commentPrefix string) error {
 			}
 			curAt = &AtCall{Pattern: pat, Args: args, FromArg: fromArg, FromCallee: fromCallee}
 			cur.AtCalls = append(cur.AtCalls, curAt)
-			curLoop = nil
+			curLoop, curCut = nil, nil
 		case "modifies":
 			if cur == nil {
 				return perr(it, "modifies outside func")
